@@ -144,11 +144,12 @@ def c01(rep, tier, seed):
     suite_table.gen(rep, tier, ["tassign"] + ([] if tier == "quick" else ["select", "arith"]), ("refused_changes_nothing", "operands_unchanged"))
     suite_table.enumerated(rep, "struct", ("operands_unchanged",))
     suite_table.enumerated(rep, "twice", ("derived_independent",))      # sizes 1, 3, 70, 1100
+    suite_vec.forms(rep, ("operands_unchanged",))       # every value-returning vector operation x same / wider / incompatible arguments x free vector / live column
     # derived results are new, independent objects whatever was computed before (same sort twice, ...)
     suite_heap.gen(rep, tier, "obst1", ("obs_sort", "contents@other", "name@other"))
     if tier != "quick":
         # growth: further value-returning operations (unique, argsort, @, peek) must be pure as well
-        suite_misc.gen(rep, ["unique", "argsort", "dot", "matvec", "sample"], ("operands_unchanged",))
+        suite_misc.gen(rep, ["unique", "argsort", "dot", "matvec", "sample", "transpose", "pluck"], ("operands_unchanged",))
 
 
 def c02(rep, tier, seed):
@@ -162,6 +163,8 @@ def c02(rep, tier, seed):
         suite_heap.gen(rep, tier, "tables", cl)
     suite_heap.trace(rep, tier, seed, cl)
     suite_table.enumerated(rep, "struct", cl + ("stack", "append_rows", "transpose", "construct"))
+    # "row slices and masks apply uniformly to all columns": every slice (start / stop / step incl. negative steps) and mask on tables
+    suite_vec.gen(rep, tier, ["slice", "mask"], ("table_rows",))
 
 
 def c15(rep, tier, seed):
@@ -171,13 +174,14 @@ def c15(rep, tier, seed):
     ]
     cl = ("spurious_refusal", "leaked_write", "registry", "sharing")
     suite_heap.mc(rep, tier, ["alias", "tables", "share"])
-    suite_heap.devs(rep, ["NoUnregister", "SetAttrNoReregister"])
+    suite_heap.devs(rep, ["NoUnregister", "SetAttrNoReregister", "ConcatShares"])
     suite_heap.gen(rep, tier, "alias", cl)
     suite_heap.gen(rep, tier, "share", cl)        # 3-4 sharers of one tuple dropped in every order, then written
     suite_heap.gen(rep, tier, "tables", cl)
     suite_heap.trace(rep, tier, seed, cl)
     # multi-column table assignment while an UNADDRESSED column shares its storage must not be refused
     suite_table.gen(rep, tier, ["tassign"], ("spurious_refusal",))
+    suite_table.enumerated(rep, "struct", ("spurious_refusal", "leaked_write"))      # tables built from the caller's own tuples
 
 
 def c16(rep, tier, seed):
@@ -220,6 +224,8 @@ def c06(rep, tier, seed):
     suite_vec.mc(rep, tier)
     suite_vec.gen(rep, tier, ["na", "elem"], C06_CL)
     suite_vec.trace(rep, tier, seed, C06_CL, ops=("elem", "na"))
+    # "... and the per-group aggregates": groups holding None (also nothing but None) in aggregate and window
+    suite_group.gen(rep, tier, ("agg_value", "window_value", "reduce_value"))
     suite_heap.gen(rep, tier, "obsv1", ("obs_na", "obs_stats"))
 
 
@@ -230,6 +236,7 @@ def c07(rep, tier, seed):
     suite_table.gen(rep, tier, ["select"], ("missing_column", "select_cols", "string_index", "commute"))
     suite_vec.trace(rep, tier, seed, C07_CL, ops=("slice", "mask"))
     suite_vec.forms(rep, ("form_index",))
+    suite_misc.gen(rep, ["tcompare", "isinstance"], ("table_compare", "table_compare_dtype"))   # t == x ...: one <bool> column per column, None compares False
     suite_repo.validate(rep, {"getitem"}, ("getitem", "index_accepts", "index_rejects"))     # every v[key] the repository's own tests execute
     suite_heap.gen(rep, tier, "obsv2", ("obs_cmp",))
     suite_heap.gen(rep, tier, "obst3", ("obs_select",))     # selections after rename histories (live view / rename_column)
@@ -311,6 +318,7 @@ def c03(rep, tier, seed):
             evs.append(e)
     suite_types.validate(rep, evs, "c03.monitor", ("dtype_truthful", "unknown_kind"))
     suite_repo.validate(rep, {"truth"}, ("dtype_truthful",))
+    suite_misc.gen(rep, ["cast"], ("cast_dtype", "cast_none"))     # cast(T): kind T, nullable exactly when a None occurs
     rep.extra["vectors_classes_inspected"] = len(evs)
     for w in mon["writeback"]:
         rep.fail("writeback", "c03.monitor", {"origin": w["origin"], "values": w["values"], "dtype": w.get("dtype")},
@@ -331,6 +339,7 @@ def c18(rep, tier, seed):
     suite_vec.gen(rep, tier, ["elem", "mask"] + ([] if q else ["slice"]), cl)
     suite_table.gen(rep, tier, ["arith", "select"], cl)
     suite_table.enumerated(rep, "struct", cl)
+    suite_table.enumerated(rep, "methods", cl)          # date arithmetic between named vectors
     suite_join.gen(rep, "quick", '{"inner","full"}', '{"many_to_many"}', cl)
     suite_sort.gen(rep, "quick", cl)
     suite_group.gen(rep, "quick", cl)
@@ -363,7 +372,7 @@ def c19(rep, tier, seed):
 
 def c20(rep, tier, seed):
     rep.assumptions += [
-        "value formatting, alignment and quoting are not checked; rows are recognised by rendering distinguishable ints",
+        "number formatting, alignment and quoting are not checked (rows are recognised by rendering distinguishable ints); for short data, two objects that differ in one visible cell must print differently and a text cell shows its stored text",
         "'# empty' is accepted as stating zero elements; '<mixed>' is accepted iff the column dtypes differ, and then the [dtype] header row must be true",
     ]
     suite_repr.gen(rep, tier)
